@@ -84,6 +84,19 @@ Theorem next_timeout_sound : forall E s m s' o, Inv E s -> exec_basic E s (NextT
 Proof. exact Proofs.next_timeout_sound. Qed.
 Print Assumptions next_timeout_sound.
 
+Theorem loop_refines : forall E s t1 d m c s' evs, Inv E s -> loop E s t1 d m c = (s', evs) ->
+  Inv E s' /\ LoopIter E s t1 d m c evs s'.
+Proof. exact Proofs.loop_refines. Qed.
+Print Assumptions loop_refines.
+
+Theorem loop_never_oversleeps : forall E s t1 d m c s' evs, Inv E s -> no_setnow E ->
+  loop E s t1 d m c = (s', evs) ->
+  forall tnow snow r, In (ELoop tnow snow r) evs ->
+    tnow = t1 + d /\ snow = t1 + d /\ now s' = t1 + d /\ 0 <= r <= Z.max m 0 /\
+    forall e dd, due s' e dd -> r = 0 \/ tnow + r <= dd.
+Proof. exact Proofs.loop_never_oversleeps. Qed.
+Print Assumptions loop_never_oversleeps.
+
 Theorem no_internal_error : forall E s e t, Inv E s ->
   Z.max min_time_wait min_time_update <= t -> t <> 0 -> valid E e = true ->
   (handle_of s e = None -> snd (exec_basic E s (WaitUntil e t)) = OOk) /\
